@@ -68,6 +68,42 @@ theorem ids_putNTomb (t : NTomb) (l : List NTomb) (i : Nat) :
       · exact Or.inr h
       · exact Or.inl h
 
+theorem mem_insertBy {α : Type} (lt : α → α → Bool) (x y : α) (l : List α) :
+    y ∈ insertBy lt x l ↔ y = x ∨ y ∈ l := by
+  induction l with
+  | nil => simp [insertBy]
+  | cons a t ih =>
+    simp only [insertBy]
+    split
+    · simp only [List.mem_cons, ih]
+      constructor
+      · rintro (h | h | h)
+        · exact Or.inr (Or.inl h)
+        · exact Or.inl h
+        · exact Or.inr (Or.inr h)
+      · rintro (h | h | h)
+        · exact Or.inr (Or.inl h)
+        · exact Or.inl h
+        · exact Or.inr (Or.inr h)
+    · simp only [List.mem_cons]
+
+theorem mem_sortBy {α : Type} (lt : α → α → Bool) (y : α) (l : List α) : y ∈ sortBy lt l ↔ y ∈ l := by
+  unfold sortBy
+  induction l with
+  | nil => simp
+  | cons a t ih => simp only [List.foldr_cons, mem_insertBy, ih, List.mem_cons]
+
+theorem mem_putNTomb {t x : NTomb} {l : List NTomb} (h : x ∈ putNTomb t l) : x = t ∨ x ∈ l := by
+  unfold putNTomb at h
+  split at h
+  · obtain ⟨y, hy, e⟩ := List.mem_map.mp h
+    split at e
+    · exact Or.inl e.symm
+    · exact Or.inr (e ▸ hy)
+  · rcases List.mem_append.mp h with h | h
+    · exact Or.inr h
+    · exact Or.inl (by simpa using h)
+
 /-! ### local writes -/
 
 theorem opNew_noZombie {cur : Replica} (h : NoZombie cur) (p row room ent val sig now : Nat)
@@ -215,11 +251,11 @@ theorem ingestNode_noZombie (rights : Rights) {r : Replica} (h : NoZombie r) (n 
     · simp only [Replica.deadIds]; rw [e]; exact h y hy
   · exact ⟨h, rfl⟩
 
-include hI in
+include hI hR in
 theorem wanted_fresh {dst : Replica} {n : Node} {o : Option Node} (h : wanted d dst n = some o) :
     n.id ∉ dst.deadIds := by
   unfold wanted at h
-  simp only [hI, Bool.not_false, Bool.true_and] at h
+  simp only [hI, hR, Bool.not_false, Bool.true_and, Bool.true_or, Bool.and_true] at h
   split at h
   · cases h
   · rename_i hany
@@ -270,7 +306,7 @@ theorem syncDay_noZombie (rights : Rights) {dst : Replica} (src : Replica) (h : 
       | some o =>
         rw [hw] at hn
         simp only [Option.map_some, Option.some.injEq] at hn
-        rw [← hn]; exact wanted_fresh hI hw
+        rw [← hn]; exact wanted_fresh hI hR hw
     have h3 : ∀ (l : List (Node × Option Node)) (r : Replica), (∀ x ∈ l, x.1.id ∉ dst2.deadIds) →
         NoZombie r → r.ntombs = dst2.ntombs →
         NoZombie (l.foldl (fun r (x : Node × Option Node) => ingestNode d rights r x.1 x.2) r) ∧
